@@ -8,7 +8,7 @@ From Coq Require Import List Arith Bool ZArith Ring Lia QArith Qcanon Reals.
 From PV Require Import Base.Index Base.Perm Base.Sum Np.Array Model.Sparse Model.Repr Model.Harness Model.C09Als Model.C09Loop Model.C18Cmp
   Model.C10Tucker Np.NpR
   Proofs.C09Identity Proofs.C09Monotone Proofs.C09Scaling Proofs.C09LoopProofs Proofs.C18Repr Proofs.C18Relabel
-  Proofs.C10Proofs Proofs.C18Tucker.
+  Proofs.C10Proofs Proofs.C18Tucker Model.C14Nvecs Model.C14Gram Proofs.C18Print Proofs.C18TuckerRel Proofs.C18Seed.
 Import ListNotations.
 
 Section C18.
@@ -200,6 +200,136 @@ Theorem C18_tucker_als_loop_scale : forall (stoptol : R) (dimorder : list nat) (
 Proof. exact (tucker_als_loop_scale E inner smul inner_sym inner_smul Fs F A smulF innerF upd upd_scale A_lin innerF_smul). Qed.
 End C18tucker.
 
+
+(* ---------------------------------------------------------------------------------------------------------------------------- *)
+(* wave 3: printing for hosvd / tucker_als / cp_apr (MU) on the transliterated drivers of Proofs/C18Print.v (numerics = oracles,   *)
+(* every print branch a statement of the model; printing settings are Python ints = Z)                                             *)
+(* ---------------------------------------------------------------------------------------------------------------------------- *)
+Section C18print_hosvd.
+Variables (T M FS F : Type) (f0 : F) (fadd : F -> F -> F) (fltb : F -> F -> bool) (normsq : T -> F) (thresh : F -> F)
+          (eigs : nat -> T -> list F) (lead : nat -> T -> nat -> M) (setf : FS -> nat -> M -> FS) (fs0 : FS)
+          (shrink : T -> nat -> M -> T) (core_all : T -> FS -> T) (relnorm : T -> T -> FS -> F) (fleb : F -> F -> bool) (tol : F)
+          (ranks : nat -> nat) (sequential : bool).
+Local Notation HV := (hv_run T M FS F f0 fadd fltb normsq thresh eigs lead setf fs0 shrink core_all relnorm fleb tol ranks sequential).
+(* the returned Tucker model (or the IndexError of the rank rule) is the same for any two verbosity values, user or automatic
+   ranks, sequential or not, any mode order *)
+Theorem C18_print_hosvd : forall (v1 v2 : Z) (dimorder : list nat) (X : T), fst (HV v1 dimorder X) = fst (HV v2 dimorder X).
+Proof. exact (hosvd_print_indep T M FS F f0 fadd fltb normsq thresh eigs lead setf fs0 shrink core_all relnorm fleb tol ranks sequential). Qed.
+Theorem C18_print_hosvd_silent : forall (v : Z) (dimorder : list nat) (X : T), (v <= 0)%Z -> snd (HV v dimorder X) = [].
+Proof. exact (hosvd_silent T M FS F f0 fadd fltb normsq thresh eigs lead setf fs0 shrink core_all relnorm fleb tol ranks sequential). Qed.
+End C18print_hosvd.
+
+Section C18print_tucker.
+Variables (Fs C F : Type) (sweep : Fs -> Fs * C) (resid : C -> F) (fit_of : F -> F) (fchange : F -> F -> F) (fltb : F -> F -> bool)
+          (fit0 stoptol : F).
+Local Notation TK := (tk_run Fs C F sweep resid fit_of fchange fltb fit0 stoptol).
+(* solution, output["iters"], output["normresidual"], output["fit"] and the fit trace are the same for any two printitn *)
+Theorem C18_print_tucker_als : forall (p1 p2 : Z) (maxiters : nat) (U0 : Fs), fst (TK p1 maxiters U0) = fst (TK p2 maxiters U0).
+Proof. exact (tucker_als_print_indep Fs C F sweep resid fit_of fchange fltb fit0 stoptol). Qed.
+Theorem C18_print_tucker_als_silent : forall (p : Z) (maxiters : nat) (U0 : Fs), (p <= 0)%Z -> snd (TK p maxiters U0) = [].
+Proof. exact (tucker_als_silent Fs C F sweep resid fit_of fchange fltb fit0 stoptol). Qed.
+End C18print_tucker.
+
+Section C18print_mu.
+Variables (St P F : Type) (N : nat) (fixslack : nat -> nat -> St -> St * bool) (redist : nat -> St -> St) (calc_pi : nat -> St -> P)
+          (calc_phi : nat -> P -> St -> St * F) (mulupd renorm : nat -> St -> St) (kktmax : St -> F) (fltb : F -> F -> bool)
+          (stoptol : F) (maxinner : nat) (timeup : nat -> bool) (finish : St -> St) (loglik : St -> St * F) (lsfit : St -> F).
+Local Notation MU := (mu_run St P F N fixslack redist calc_pi calc_phi mulupd renorm kktmax fltb stoptol maxinner timeup finish loglik lsfit).
+(* returned model, kktViolations, nInnerIters, nViolations and obj are the same for any two (printitn, printinneritn) *)
+Theorem C18_print_cp_apr_mu : forall (p1 q1 p2 q2 : Z) (maxiters : nat) (s0 : St),
+  fst (MU p1 q1 maxiters s0) = fst (MU p2 q2 maxiters s0).
+Proof. exact (cp_apr_mu_print_indep St P F N fixslack redist calc_pi calc_phi mulupd renorm kktmax fltb stoptol maxinner timeup finish loglik lsfit). Qed.
+Theorem C18_print_cp_apr_mu_silent : forall (p q : Z) (maxiters : nat) (s0 : St), (p <= 0)%Z -> (q <= 0)%Z -> snd (MU p q maxiters s0) = [].
+Proof. exact (cp_apr_mu_silent St P F N fixslack redist calc_pi calc_phi mulupd renorm kktmax fltb stoptol maxinner timeup finish loglik lsfit). Qed.
+End C18print_mu.
+
+(* ---------------------------------------------------------------------------------------------------------------------------- *)
+(* wave 3: dense vs sparse holder for Tucker-ALS / nvecs, and mode relabelling for HOSVD / Tucker-ALS                             *)
+(* ---------------------------------------------------------------------------------------------------------------------------- *)
+Section C18repr_tucker.
+Variable V : Type.
+Variables (v0 v1 : V) (vadd vmul vsub : V -> V -> V) (vopp : V -> V).
+Hypothesis Vring : ring_theory v0 v1 vadd vmul vsub vopp (@eq V).
+Variable isz : V -> bool.
+(* the matrix tensor.nvecs (Xn Xn^T, dense holder) and sptensor.nvecs (COO product, sparse holder, ANY stored order) hand to the
+   eigen solver is the same whenever the two holders denote the same array (C14_gram_dense + C14_gram_sparse) *)
+Theorem C18_repr_gram : forall (X : dense V) (S : sparse V) (n a b : nat),
+  wf_sp isz S -> sshape S = dshape X -> (forall i, inb (dshape X) i = true -> den_sp v0 S i = den_dense v0 X i) ->
+  (n < length (dshape X))%nat -> (a < nth n (dshape X) 0)%nat -> (b < nth n (dshape X) 0)%nat ->
+  mget v0 (gram_sp_impl v0 vadd vmul S n) a b = mget v0 (gram_dense_impl v0 vadd vmul X n) a b.
+Proof. exact (repr_gram_dense_sparse V v0 v1 vadd vmul vsub vopp Vring isz). Qed.
+(* mode-n products read the holder only through its denotation on the shape *)
+Theorem C18_repr_ttm : forall (s : shape) (X1 X2 : idx -> V) (n : nat) (M : list (list V)) (i : idx),
+  (n < length s)%nat -> inb s i = true -> (forall j, inb s j = true -> X1 j = X2 j) ->
+  ttm_den v0 vadd vmul X1 (nth n s 0%nat) n M i = ttm_den v0 vadd vmul X2 (nth n s 0%nat) n M i.
+Proof. exact (repr_ttm_den V v0 vadd vmul). Qed.
+End C18repr_tucker.
+
+Section C18tucker_rel.
+Variable E : Type.
+Variable inner : E -> E -> R.
+Variable choose : nat -> E -> (E -> E).
+Variables (Fs F : Type) (A : Fs -> E -> F) (innerF : F -> F -> R) (upd : nat -> Fs -> E -> Fs) (stoptol : R).
+(* Tucker-ALS loop (abstract model of Proofs/C18Tucker.v): two holders on which every nvecs update, the core and ||X|| agree -
+   which is what C18_repr_gram / C18_repr_ttm give for a dense and a sparse holder of one array - run identically *)
+Theorem C18_repr_tucker_als : forall (x1 x2 : E) (dimorder : list nat) (maxiters : nat) (U : Fs) (fit0 : R),
+  (forall n U, upd n U x1 = upd n U x2) -> (forall U, A U x1 = A U x2) -> nrm2 E inner x1 = nrm2 E inner x2 ->
+  als_loop E inner Fs F A innerF upd stoptol dimorder maxiters U fit0 x1
+  = als_loop E inner Fs F A innerF upd stoptol dimorder maxiters U fit0 x2 /\
+  A (fst (fst (als_loop E inner Fs F A innerF upd stoptol dimorder maxiters U fit0 x1))) x1
+  = A (fst (fst (als_loop E inner Fs F A innerF upd stoptol dimorder maxiters U fit0 x2))) x2.
+Proof. exact (tucker_als_repr E inner Fs F A innerF upd stoptol). Qed.
+
+(* relabelling: perm = X |-> X.permute(p) on the space, q m = position of original mode m; the projector oracle is equivariant *)
+Variables (perm : E -> E) (q : nat -> nat).
+Hypothesis choose_perm : forall n y z, choose (q n) (perm y) (perm z) = perm (choose n y z).
+Theorem C18_relabel_hosvd : forall (sequential : bool) (modes : list nat) (x : E),
+  snd (hosvd E choose sequential (map q modes) (perm x)) = perm (snd (hosvd E choose sequential modes x)) /\
+  Forall2 (conj_of E perm) (fst (hosvd E choose sequential (map q modes) (perm x))) (fst (hosvd E choose sequential modes x)).
+Proof. exact (hosvd_relabel E choose perm q choose_perm). Qed.
+
+Variable permF : Fs -> Fs.
+Hypothesis upd_perm : forall n U x, upd (q n) (permF U) (perm x) = permF (upd n U x).
+Theorem C18_relabel_tucker_als : forall (dimorder : list nat) (k : nat) (U : Fs) (x : E),
+  sweeps E Fs upd (map q dimorder) k (permF U) (perm x) = permF (sweeps E Fs upd dimorder k U x).
+Proof. exact (tucker_als_relabel E Fs upd perm q permF upd_perm). Qed.
+
+Variable permC : F -> F.
+Hypothesis A_perm : forall U x, A (permF U) (perm x) = permC (A U x).
+Hypothesis innerF_perm : forall g, innerF (permC g) (permC g) = innerF g g.
+Hypothesis nrm_perm : forall x, nrm2 E inner (perm x) = nrm2 E inner x.
+(* ... and the whole loop with its stopping test: relabelled factors, same fit, same iteration count, relabelled core *)
+Theorem C18_relabel_tucker_als_loop : forall (dimorder : list nat) (maxiters : nat) (U : Fs) (fit0 : R) (x : E),
+  let r := als_loop E inner Fs F A innerF upd stoptol dimorder maxiters U fit0 x in
+  let r' := als_loop E inner Fs F A innerF upd stoptol (map q dimorder) maxiters (permF U) fit0 (perm x) in
+  fst (fst r') = permF (fst (fst r)) /\ snd (fst r') = snd (fst r) /\ snd r' = snd r /\
+  A (fst (fst r')) (perm x) = permC (A (fst (fst r)) x).
+Proof. exact (tucker_als_relabel_loop E inner Fs F A innerF upd stoptol perm q permF upd_perm permC A_perm innerF_perm nrm_perm). Qed.
+End C18tucker_rel.
+
+(* ---------------------------------------------------------------------------------------------------------------------------- *)
+(* wave 3: random starts as a function of the captured stream (Proofs/C18Seed.v: np.random.uniform draws in C order; the generator  *)
+(* itself is not modelled): same seed = same stream window => same start => same model                                             *)
+(* ---------------------------------------------------------------------------------------------------------------------------- *)
+Section C18seed.
+Variable V : Type.
+(* cp_als / cp_apr / gcp_opt, init = "random": the N factor matrices read exactly the draws [pos, pos + sum_n shape[n]*rank) *)
+Theorem C18_seed_start : forall (st1 st2 : nat -> V) (dims : list nat) (R pos : nat),
+  (forall k, (pos <= k < pos + total dims R)%nat -> st1 k = st2 k) ->
+  draw_factors V st1 pos dims R = draw_factors V st2 pos dims R.
+Proof. exact (random_start_same_seed V). Qed.
+(* tucker_als, init = "random": modes dimorder[1:] in that order, the first mode of the sweep stays undrawn *)
+Theorem C18_seed_start_tucker : forall (st1 st2 : nat -> V) (dimorder shape ranks : list nat) (pos : nat),
+  (forall k, (pos <= k < pos + total_t (tl dimorder) shape ranks)%nat -> st1 k = st2 k) ->
+  tucker_start V st1 pos dimorder shape ranks = tucker_start V st2 pos dimorder shape ranks.
+Proof. exact (tucker_start_same_seed V). Qed.
+(* any deterministic algorithm applied to the drawn start *)
+Theorem C18_seed_run : forall (Res : Type) (alg : list (list (list V)) -> Res) (st1 st2 : nat -> V) (dims : list nat) (R pos : nat),
+  (forall k, (pos <= k < pos + total dims R)%nat -> st1 k = st2 k) ->
+  alg (fst (draw_factors V st1 pos dims R)) = alg (fst (draw_factors V st2 pos dims R)).
+Proof. exact (seeded_run_same_seed V). Qed.
+End C18seed.
+
 (* the comparer used by the generated metamorphic cases accepts identical value lists *)
 Theorem C18_cmp_refl : forall l : list Qc, qlists_close tol8 l l = true.
 Proof. intro l. exact (qlists_close_refl tol8 l tol8_nonneg). Qed.
@@ -225,6 +355,21 @@ Print Assumptions C18_print_state.
 Print Assumptions C18_print.
 Print Assumptions C18_print_silent.
 Print Assumptions C18_cmp_refl.
+Print Assumptions C18_print_hosvd.
+Print Assumptions C18_print_hosvd_silent.
+Print Assumptions C18_print_tucker_als.
+Print Assumptions C18_print_tucker_als_silent.
+Print Assumptions C18_print_cp_apr_mu.
+Print Assumptions C18_print_cp_apr_mu_silent.
+Print Assumptions C18_repr_gram.
+Print Assumptions C18_repr_ttm.
+Print Assumptions C18_repr_tucker_als.
+Print Assumptions C18_relabel_hosvd.
+Print Assumptions C18_relabel_tucker_als.
+Print Assumptions C18_relabel_tucker_als_loop.
+Print Assumptions C18_seed_start.
+Print Assumptions C18_seed_start_tucker.
+Print Assumptions C18_seed_run.
 
 (* non-vacuity: a non-symmetric 2x3x2 rank-2 model over Z and the non-involutive relabelling p = [1;2;0] *)
 Example C18_relabel_example :
